@@ -10,7 +10,9 @@
    Application.Value() is the parameter e_val : height -> round -> call count -> value.  The call count is
    the number of Value() calls the application has answered so far (it is NOT reset by a restart of the
    validator: the world outside moves on), so "Value() is not reproducible after a restart" is expressible:
-   value_deterministic says the answer does not depend on the count. *)
+   value_deterministic says the answer does not depend on the count.
+   Second half of the file (2026-09-26): plain_run (good_run without the per-run clause on rejected messages), the ways a
+   life ends other than by a kill (fault / fault_outcome / end_disk / Worlds2), the log-content predicates, logged_state. *)
 From Coq Require Import List NArith ZArith Bool.
 From V Require Import C12.Model.
 Import ListNotations.
@@ -508,3 +510,264 @@ Inductive Worlds (E : env) : N -> list wrec -> list effect -> Prop :=
     Worlds E H D EH -> live_good E (fst (recover E H D n)) ins = true ->
     let effs := flat (snd (lifetime E H D n ins)) in
     Worlds E (resume_height H (firstn k effs)) (crash_at k effs D) (EH ++ firstn k effs).
+
+(* ====================================================================================================
+   Part A (2026-09-26): the plain-run hypothesis WITHOUT the per-run clause about rejected messages.
+   good_body asked, per run, that a rejected message (no action returned) leaves its counter cell as it
+   was (rdata_eqb).  C12/Proofs_WalReplay.v proves that for every counter a run can reach (rd_wf / vc_wf:
+   vc_add_vote_reject, vc_add_proposal_reject), so the clause is dropped here; Proofs_Plain.v shows
+   plain_* implies good_* and the theorems are restated with plain_*.
+   ==================================================================================================== *)
+Definition plain_body (E : env) (s : state) (n : N) (i : input) (acts : list action) : bool :=
+  ok_input s i &&
+  match i with
+  | IStart r => (r =? 0)%Z && negb (has_commit acts)
+  | ITimeout k h r =>
+      s_started s &&
+      (timeout_matches s k h r ||
+       is_rnone (select (cfg_at E (s_h s) (in_round i) n) (set_nval s 0) None))
+  | _ => s_started s && negb (has_trigger acts)
+  end.
+Definition plain_step (E : env) (d : dstate) (i : input) : bool :=
+  plain_body E (d_sm d) (d_calls d) i (snd (sm_step E (d_sm d) (d_calls d) i)).
+
+Fixpoint starts_plain (E : env) (fuel : nat) (d : dstate) : bool :=
+  match fuel with
+  | O => true
+  | S n => plain_step E d (IStart 0) &&
+           let '(d1, _, com) := dstep E false d (IStart 0) in
+           if com then starts_plain E n d1 else true
+  end.
+Fixpoint listen_plain (E : env) (d : dstate) (ins : list input) : bool :=
+  match ins with
+  | [] => true
+  | i :: rest =>
+      plain_step E d i &&
+      let '(d1, _, com) := dstep E false d i in
+      (if com then starts_plain E SFUEL d1 else true) &&
+      listen_plain E (if com then fst (starts E SFUEL d1) else d1) rest
+  end.
+Definition plain_run (E : env) (h0 : N) (ins : list input) : bool :=
+  (1 <=? h0) && starts_plain E SFUEL (boot h0 [] 0) &&
+  listen_plain E (fst (starts E SFUEL (boot h0 [] 0))) ins.
+Definition live_plain (E : env) (d : dstate) (ins : list input) : bool :=
+  starts_plain E SFUEL d && listen_plain E (fst (starts E SFUEL d)) ins.
+
+(* ====================================================================================================
+   Part B (2026-09-26): the ways a life can end other than by a hard kill.
+   driver.Run returns through its deferred d.db.Close() (which flushes what is pending) when
+     - commitListener.OnCommit returns false (commit() -> "commit listener failed" / ctx.Err()),
+     - db.SetWALEntry / db.Flush / db.DeleteWALEntries return an error (execute / commit return it),
+     - the context is cancelled: listen() notices at its next select (the top of the outer loop, or
+       between two inputs); replay() never looks at the context; a cancelled context makes the commit
+       listener refuse (consensus/driver/commit_listener.go: select on ctx.Done()).
+   Up to the failing operation the process does what the fault-free life does, so the effects of such a
+   life are a prefix of the fault-free life's effects; what differs from a kill is the final flush.
+   ==================================================================================================== *)
+Inductive fault :=
+| FNone
+| FKill (k : nat)                               (* killed after k effects *)
+| FFail (k : nat) (performed close_ok : bool)   (* the first store call / commit callback at or after effect number k
+                                                   (0-based) reports failure (error / OnCommit returns false);
+                                                   performed: it did its work nevertheless.  If there is none the
+                                                   life is shut down at its end. *)
+| FCancel (k : nat) (close_ok : bool).          (* the context is cancelled when k effects have been performed *)
+
+Definition fallible (e : effect) : bool :=
+  match e with Append _ | Flush | Prune _ | CommitCb _ _ => true | _ => false end.
+
+(* effects of a call up to (not including) its commit callback *)
+Fixpoint take_until_cb (es : list effect) : list effect * option effect :=
+  match es with
+  | [] => ([], None)
+  | CommitCb h v :: _ => ([], Some (CommitCb h v))
+  | e :: r => let '(l, o) := take_until_cb r in (e :: l, o)
+  end.
+
+(* the calls a life still makes once its context is cancelled after k effects, and the callback that refuses *)
+Fixpoint cancel_steps (tr : list step_tr) (k : nat) (cancelled : bool) : list step_tr * option effect :=
+  match tr with
+  | [] => ([], None)
+  | (l, es) :: rest =>
+      if cancelled then
+        match l with
+        | LWal _ =>
+            let '(pre, o) := take_until_cb es in
+            match o with
+            | Some x => ([(l, pre)], Some x)
+            | None => let '(more, o') := cancel_steps rest k true in ((l, es) :: more, o')
+            end
+        | LIn _ => ([], None)               (* listen: select on ctx.Done() before ProcessStart *)
+        end
+      else if Nat.ltb k (length es) then
+        let '(pre, o) := take_until_cb (skipn k es) in
+        match o with
+        | Some x => ([(l, firstn k es ++ pre)], Some x)
+        | None =>
+            match l with
+            | LWal _ => let '(more, o') := cancel_steps rest 0 true in ((l, es) :: more, o')
+            | LIn _ => ([(l, es)], None)
+            end
+        end
+      else let '(more, o') := cancel_steps rest (k - length es) false in ((l, es) :: more, o')
+  end.
+
+(* the calls of a life whose operation number k fails *)
+Fixpoint fail_steps (tr : list step_tr) (k : nat) (extra : nat) : list step_tr :=
+  match tr with
+  | [] => []
+  | (l, es) :: rest =>
+      if Nat.ltb k (length es) then [(l, firstn (k + extra) es)]
+      else (l, es) :: fail_steps rest (k - length es) extra
+  end.
+
+(* the calls of a life killed after k effects (calls without effects go on until the next effect is due) *)
+Fixpoint cut_steps (tr : list step_tr) (k : nat) : list step_tr :=
+  match tr with
+  | [] => []
+  | (l, es) :: rest =>
+      if Nat.leb (length es) k then (l, es) :: cut_steps rest (k - length es) else [(l, firstn k es)]
+  end.
+
+(* the first store call / commit callback at or after position k *)
+Fixpoint first_fallible (effs : list effect) (k : nat) (pos : nat) : option (nat * effect) :=
+  match effs with
+  | [] => None
+  | e :: r => if Nat.leb k pos && fallible e then Some (pos, e) else first_fallible r k (S pos)
+  end.
+
+Record outcome := mkOut {
+  o_steps : list step_tr;        (* what the life did *)
+  o_failed : option effect;      (* the operation that failed / the callback that refused *)
+  o_valid : bool;                (* the fault script fits the life (the failing operation is a store call / callback) *)
+  o_flushed : bool               (* Run returned through Close and Close's flush succeeded *)
+}.
+
+Definition fault_outcome (tr : list step_tr) (f : fault) : outcome :=
+  let effs := flat tr in
+  match f with
+  | FNone => mkOut tr None true false
+  | FKill k => mkOut (cut_steps tr k) None true false
+  | FFail k p c =>
+      match first_fallible effs k 0 with
+      | Some (k', x) => mkOut (fail_steps tr k' (if p then 1 else 0)) (Some x) true c
+      | None => mkOut tr None true c
+      end
+  | FCancel k c => let '(st, o) := cancel_steps tr k false in mkOut st o true c
+  end.
+
+(* the log after the first k effects of a life that booted on D *)
+Definition wal_at (D : list wrec) (effs : list effect) (k : nat) : wal :=
+  apply_effects (mkWal D []) (firstn k effs).
+(* ... and what is on disk when Run then returns through Close and the flush succeeds *)
+Definition stop_disk (k : nat) (effs : list effect) (D : list wrec) : list wrec :=
+  w_durable (wal_flush (wal_at D effs k)).
+Definition end_disk (flushed : bool) (k : nat) (effs : list effect) (D : list wrec) : list wrec :=
+  if flushed then stop_disk k effs D else crash_at k effs D.
+
+(* the places where Run can return with something still pending: everywhere else the driver has just flushed.
+   With records pending, what follows up to the next Flush (or the end of the life) are only timers and
+   broadcasts: a failing Flush (the retry inside Close may succeed), a SetWALEntry that stored its entry and
+   reported an error, the end of a call of the live phase. *)
+Fixpoint quiet_until_flush (l : list effect) : bool :=
+  match l with
+  | [] => true
+  | Flush :: _ => true
+  | Sched _ _ _ :: r => quiet_until_flush r
+  | Bcast _ :: r => quiet_until_flush r
+  | _ => false
+  end.
+Definition stop_ok (D : list wrec) (effs : list effect) (k : nat) : bool :=
+  match w_pending (wal_at D effs k) with [] => true | _ => false end || quiet_until_flush (skipn k effs).
+
+(* the worlds a validator process can be started in when lives end by kills AND by the regular return path *)
+Inductive Worlds2 (E : env) : N -> list wrec -> list effect -> Prop :=
+| w2_init : forall h0, 1 <= h0 -> Worlds2 E h0 [] []
+| w2_kill : forall H D EH n ins k,
+    Worlds2 E H D EH -> live_plain E (fst (recover E H D n)) ins = true ->
+    let effs := flat (snd (lifetime E H D n ins)) in
+    Worlds2 E (resume_height H (firstn k effs)) (crash_at k effs D) (EH ++ firstn k effs)
+| w2_stop : forall H D EH n ins k,
+    Worlds2 E H D EH -> live_plain E (fst (recover E H D n)) ins = true ->
+    let effs := flat (snd (lifetime E H D n ins)) in
+    stop_ok D effs k = true ->
+    Worlds2 E (resume_height H (firstn k effs)) (stop_disk k effs D) (EH ++ firstn k effs).
+
+(* ---------- predicates evaluated on the implementation's observations ---------- *)
+Definition entry_eqb (a b : entry) : bool :=
+  match a, b with
+  | EStart h, EStart h' => h =? h'
+  | EProposal p, EProposal q => proposal_eqb p q
+  | EPrevote v, EPrevote u | EPrecommit v, EPrecommit u =>
+      (v_h v =? v_h u) && (v_r v =? v_r u)%Z && (v_from v =? v_from u) && oid_eqb (v_id v) (v_id u)
+  | ETimeout k h r, ETimeout k' h' r' => step_eqb k k' && (h =? h') && (r =? r')%Z
+  | _, _ => false
+  end.
+
+(* the entries appended before the last visible effect of a trace *)
+Fixpoint seen_appends (l : list effect) (pend : list entry) : list entry :=
+  match l with
+  | [] => []
+  | Append e :: r => seen_appends r (pend ++ [e])
+  | Bcast _ :: r | CommitCb _ _ :: r => pend ++ seen_appends r []
+  | _ :: r => seen_appends r pend
+  end.
+(* every entry appended before a visible effect is in the log L read back from the disk, unless its height is
+   at or below lo (the last height whose commit completed: pruning those is the point of the commit) *)
+Definition log_covers_visible (lo : N) (effs : list effect) (L : list entry) : bool :=
+  forallb (fun e => (entry_height e <=? lo) || existsb (entry_eqb e) L) (seen_appends effs []).
+
+(* a prune is only ever performed right after the commit callback of the same height returned true *)
+Fixpoint prunes_follow_cb (prev : option effect) (l : list effect) : bool :=
+  match l with
+  | [] => true
+  | Prune h :: r =>
+      match prev with Some (CommitCb h' _) => h =? h' | _ => false end && prunes_follow_cb (Some (Prune h)) r
+  | e :: r => prunes_follow_cb (Some e) r
+  end.
+
+(* nothing is pending in the log at the moment of a visible effect (dirty: something may be pending) *)
+Fixpoint clean_when_visible (dirty : bool) (l : list effect) : bool :=
+  match l with
+  | [] => true
+  | Append _ :: r | Prune _ :: r => clean_when_visible true r
+  | Flush :: r => clean_when_visible false r
+  | Bcast _ :: r | CommitCb _ _ :: r => negb dirty && clean_when_visible dirty r
+  | _ :: r => clean_when_visible dirty r
+  end.
+
+(* ---------- the state the log stands for ---------- *)
+(* AddProposal / AddPrevote / AddPrecommit of the vote counter alone (no rule is evaluated) *)
+Definition count_msg (c : cfg) (s : state) (e : entry) : state :=
+  match e with
+  | EProposal p => set_vc s (fst (vc_add_proposal c (s_vc s) p))
+  | EPrevote v => set_vc s (fst (vc_add_vote c (s_vc s) Prevote v))
+  | EPrecommit v => set_vc s (fst (vc_add_vote c (s_vc s) Precommit v))
+  | _ => s
+  end.
+(* the state machine alone (no driver, no log, no crash) fed with entries *)
+Fixpoint sm_feed (E : env) (s : state) (n : N) (es : list entry) : state * N :=
+  match es with
+  | [] => (s, n)
+  | e :: rest =>
+      if entry_height e <? s_h s then sm_feed E s n rest
+      else let '(s', n', _) := sm_step E s n (input_of_entry e) in sm_feed E s' n' rest
+  end.
+(* a fresh state machine at height H is given exactly the logged entries A: those of height H through the
+   Process* calls in the order they were logged, those above H (messages received early) are counted *)
+Definition logged_state (E : env) (H : N) (A : list entry) : state :=
+  fold_left (count_msg (cfg_at E 0 0 0)) (filter (fun e => H <? entry_height e) A)
+            (fst (sm_feed E (init_state H) 0 (filter (fun e => entry_height e =? H) A))).
+Definition entries_of (l : list wrec) : list entry :=
+  flat_map (fun r => match r with REntry e => [e] | RPrune _ => [] end) l.
+
+(* no call of a recovery returns TriggerSync *)
+Fixpoint feed_quiet (E : env) (s : state) (n : N) (es : list entry) : bool :=
+  match es with
+  | [] => true
+  | e :: rest =>
+      if entry_height e <? s_h s then feed_quiet E s n rest
+      else let '(s', n', acts) := sm_step E s n (input_of_entry e) in negb (has_trigger acts) && feed_quiet E s' n' rest
+  end.
+Definition replay_quiet (E : env) (h : N) (D : list wrec) (n : N) : bool :=
+  feed_quiet E (init_state h) n (load D).
